@@ -19,9 +19,12 @@ func Map(s string, mapType reflect.Type) (reflect.Value, error) {
 				return fmt.Errorf("Error casting map key")
 			}
 
-			val := m.MapIndex(newKeyCast.Elem())
+			// keys and values were parsed into the basic types of their
+			// kinds; the map's key and value types may be user-defined.
+			newKey := newKeyCast.Elem().Convert(keyType)
+			val := m.MapIndex(newKey)
 			if val.IsValid() {
-				return fmt.Errorf("duplicate key %q, already has value %q", newKeyCast.Elem(), val)
+				return fmt.Errorf("duplicate key %q, already has value %q", newKey, val)
 			}
 
 			newValCast, err := String(newValStr, valType)
@@ -29,7 +32,7 @@ func Map(s string, mapType reflect.Type) (reflect.Value, error) {
 				return fmt.Errorf("Error casting map val")
 			}
 
-			m.SetMapIndex(newKeyCast.Elem(), newValCast.Elem())
+			m.SetMapIndex(newKey, newValCast.Elem().Convert(valType))
 
 			return nil
 		})
